@@ -65,7 +65,7 @@ Section FLg.
       assert (Hg1 : grows st st1) by (eapply wc_grows; exact Hbody).
       assert (Hg2 : grows st1 st') by (eapply cmp_grows; exact Hpb).
       assert (Hcdc : is_codata cp (compile_ty vty) = true) by (rewrite (is_codata_compile p cp Hcod); exact Hcd).
-      destruct (HT1 n Hn G cur (compile_ty vty) st1 pb st' e ce Hpb Hf1 Hk1 Hkb Hw1 Hn1 Hl) as [pv [_ [Hcut [HCo _]]]].
+      destruct (HT1 n Hn G cur (compile_ty vty) st1 pb st' e ce Hpb Hf1 Hk1 Hkb Hw1 Hn1 Hl) as [pv [_ [Hcut [_ [HCo _]]]]].
       { eapply Gused_grows; eauto. }
       { eapply incl_grows; eauto. }
       { exact Hcdc. }
